@@ -25,6 +25,7 @@ func c05Alphabet() []dItem {
 		n("-128", -128), n("-129", -129), n("65535", 65535), n("65536", 65536), n("-32768", -32768), n("-32769", -32769),
 		n("0x7fffffff", 0x7fffffff), n("0x80000000", 0x80000000), n("0xffffffff", 0xffffffff), n("0x100000000", 0x100000000),
 		{text: "(1+2)*3", kind: "expr", val: 9},
+		n("'A'", 0x41), n("'z'", 0x7a), {text: "'0'+9", kind: "expr", val: 0x39},
 		s(`"A"`, "A"), s(`"ab"`, "ab"), s(`""`, ""), s(`"a,b"`, "a,b"), s(`"a;b"`, "a;b"), s(`"a#b c"`, "a#b c"), s(`"it's"`, "it's"), s("\"caf\u00e9\"", "caf\u00e9"), s("\"\u65e5\u672c\"", "\u65e5\u672c"),
 		{text: "back", kind: "label"},
 		{text: "$", kind: "dollar"},
